@@ -271,6 +271,41 @@ def transient_failures(ctx):
             sys.set_int_max_str_digits(old)
 
 
+def exhaustive_short_histories(ctx, length):
+    """EVERY history of up to `length` recompiles over three valid texts and two invalid ones on one evaluator (5^length of them: returning to an earlier text, right after
+    a refusal, after two refusals, the same text twice ...): after each step the evaluator answers like a fresh evaluator of the last ACCEPTED text, and a refusal raises"""
+    import itertools
+    from pyab_experiment.experiment_evaluator import ExperimentEvaluator
+    T = 'def e { salt: "%s" splitters: u return "%s" weighted 1 }'
+    valid = {"A": T % ("s1", "a"), "B": T % ("s2", "b"), "C": 'def other { splitters: u return "c" weighted 1 }'}
+    invalid = {"x": 'def e { splitters: u return "a" weighted }', "y": 'def e { return "a" weighted 1 } @'}
+    want = {"A": "a", "B": "b", "C": "c"}
+    for first in valid:
+        for seq in itertools.product("ABCxy", repeat=length):
+            ev, _ = common.quiet(lambda: ExperimentEvaluator(valid[first]))
+            last = first
+            for i, step in enumerate(seq):
+                try:
+                    common.quiet(lambda: ev.recompile(valid.get(step) or invalid[step]))
+                    raised = False
+                except Exception:  # noqa
+                    raised = True
+                if step in valid:
+                    last = step
+                got = common.outcome_of(lambda: ev(u="unit1"))
+                ok = (raised == (step in invalid)) and got == {"g": {"s": want[last]}}
+                if not ok:
+                    hist = [first] + list(seq[:i + 1])
+                    ctx.case(("short-history", first, seq), True)
+                    ctx.violation(f"history new({first}); " + "; ".join("recompile(%s)" % h for h in hist[1:]) + f" (A, B, C valid texts, x, y invalid ones): the last step "
+                                  f"{'raised' if raised else 'returned'}, the evaluator then answers {json.dumps(got)}; the last accepted text is {last} (answers {want[last]!r})",
+                                  {"history": [["new", 0, valid[first]]] + [["recompile", 0, valid.get(h) or invalid[h]] for h in hist[1:]] + [["call", 0, common.enc_env({"u": "unit1"})]],
+                                   "labels": hist, "impl": got, "expected": want[last], "raised": raised})
+                    return
+            ctx.count("short-histories")
+    ctx.case(("short-histories", length), True)
+
+
 def run(ctx):
     n = N[ctx.tier]
     if ctx.obligation_breaks:
@@ -283,6 +318,7 @@ def run(ctx):
     ctx.assumptions.append("CollisionFree: texts in a history have pairwise distinct MD5 (hypothesis of C11_refinement_history)")
     run_batch(ctx, n, LEN[ctx.tier])
     transient_failures(ctx)
+    exhaustive_short_histories(ctx, 4 if ctx.tier == 'quick' else 5)
 
 
 def search(ctx):
